@@ -886,6 +886,15 @@ def check_dtype(ck, scen, base, out):
                          float64_grad=g0[k][:6])
                 return
             err = max(abs(g[c] - g0[k][c]) for c in coords)
+            cell = (getattr(scen, "spec", None) or {}).get("cell") or {}
+            gap = cell.get("eigenvalue_gap")
+            if err > 0.1 * norm + 0.1 and cell.get("eigh_based") and gap is not None and gap < 1e-3:
+                # torch.linalg.eigh's backward divides by eigenvalue differences: with a MEASURED relative gap below
+                # 1e-3 the float32 rounding of the decomposition (eps32 = 1.2e-7) is amplified by eps32/gap per pair
+                # of a 4..61-state matrix, so float32 cannot resolve this gradient; the float64 gradient of the same
+                # point is still checked against finite differences. Counted, not judged (conditioning, not logic).
+                ck.bucket("dtype/float32-eigh-near-tie (measured gap < 1e-3: precision subject)")
+                continue
             if err > 0.1 * norm + 0.1:
                 _finding(out, "float32-gradient-far-from-float64", scen, vals, leaf=k, float32_grad=g[:6],
                          float64_grad=g0[k][:6])
